@@ -130,12 +130,14 @@ func c20rtCaller() (who, site, fn string) {
 	pcs := make([]uintptr, 48)
 	n := runtime.Callers(3, pcs)
 	frames := runtime.CallersFrames(pcs[:n])
-	quic, via := false, false
+	quic, via, inRun := false, false, false
 	site = "other"
 	for {
 		f, more := frames.Next()
 		name := f.Function
 		switch {
+		case strings.Contains(name, "cmd.c20rtRun"):
+			inRun = true // the harness calls startRealmServerRuntime synchronously: whatever it reads is the startup's doing
 		case strings.Contains(name, c20rtQuicFn):
 			quic = true
 		case strings.Contains(name, "PunchPacketConn).ReadFrom"):
@@ -164,6 +166,9 @@ func c20rtCaller() (who, site, fn string) {
 		if !more {
 			break
 		}
+	}
+	if inRun && site == "other" {
+		site = "startup"
 	}
 	switch {
 	case quic:
@@ -775,9 +780,9 @@ func c20rtRun(c c20rtCase, res map[string]any) {
 	stalled := ""
 	select {
 	case <-w.done:
-	case <-time.After(45 * time.Second):
+	case <-time.After(90 * time.Second):
 		w.mu.Lock()
-		stalled = fmt.Sprintf("the runtime did not get through the scripted history within 45 s (register calls %d, sessions %d)", w.regCalls, w.sessions)
+		stalled = fmt.Sprintf("the runtime did not get through the scripted history within 90 s (register calls %d, sessions %d)", w.regCalls, w.sessions)
 		w.mu.Unlock()
 	}
 	<-trickleDone
